@@ -29,6 +29,15 @@ def gen_case(rnd):
     if rnd.random() < 0.04:
         # a shared name: the declaration cannot be honoured (ValueError at retrieval)
         i = tuple((('a' if k == 0 and p[1] not in (VA, VK) else p[0]),) + p[1:] for k, p in enumerate(i))
+    elif rnd.random() < 0.06:
+        # ... a name of ANY of the wrapper's own parameters (keyword-only ones included) given to any one of the callee's
+        onames = [p[0] for p in o if p[1] not in (VA, VK)]
+        inamed = [k for k, p in enumerate(i) if p[1] not in (VA, VK)]
+        if onames and inamed:
+            k = rnd.choice(inamed)
+            nm = rnd.choice(onames)
+            if nm not in [p[0] for p in i]:
+                i = tuple(((nm,) + p[1:]) if j == k else p for j, p in enumerate(i))
     ova, ovk = sigs.star_name(o, VA), sigs.star_name(o, VK)
     ipos = [p[0] for p in i if p[1] in (PO, PK)]
     ivp, ivk = sigs.has_kind(i, VA), sigs.has_kind(i, VK)
@@ -60,7 +69,7 @@ def gen_case(rnd):
     # use_varkwargs=False: a redundant way of saying the same thing
     return dict(o=o, i=i, n=n, names=names, pass_va=pass_va, pass_vk=pass_vk, hide_args=hide_args,
                 hide_kwargs=hide_kwargs, partial=partial, form=form, redundant_flags=rnd.random() < 0.5,
-                falsy=rnd.choice((0, 0, 1, 2)))
+                falsy=rnd.choice((0, 0, 1, 2)), reused_decorator=rnd.random() < 0.4)
 
 
 def foreign_values(c):
@@ -180,8 +189,15 @@ def build_source(c, inner_params=None):
     else:   # apply-super
         parts, flags = decl_args(c)
         kw = ['num_args=%d' % c['n'], 'named_args=%r' % (tuple(c['names']),)] + flags
-        src = head + 'class B(object):\n    def w(%s): return None\n' % selfi
-        src += "@specifiers.apply_forwards_to_super('w', %s)\n" % ', '.join(kw)
+        if c.get('reused_decorator'):
+            # ONE decorator object, applied to the base class first and to the subclass afterwards
+            src = head + 'class B0(object):\n    def w(self, *a_, **k_): return None\n'
+            src += "fwd_ = specifiers.apply_forwards_to_super('w', %s)\n" % ', '.join(kw)
+            src += '@fwd_\nclass B(B0):\n    def w(%s): return None\n' % selfi
+            src += '@fwd_\n'
+        else:
+            src = head + 'class B(object):\n    def w(%s): return None\n' % selfi
+            src += "@specifiers.apply_forwards_to_super('w', %s)\n" % ', '.join(kw)
         src += 'class A(B):\n    def w(%s):\n        return %s\n' % (selfo, call_text(c, 'super(A, self).w'))
         src += FALSY[c.get('falsy', 0)]
         src += 'obj = A()\ntarget = obj.w\nunbound = A.w\n'
